@@ -583,6 +583,11 @@ def run(ctx, report):
     if n_lit == 0:
         R3.note('no dictionary display is subscripted in the assembler')
 
+    # -------------------------------------------------------------- D6 no byte beyond the instruction is consumed
+    R6 = report.rule('C10.D6', 'every operand fetch of _dis reads the number of bytes its mode prescribes (no over-read, no unread tail)', floor=12)
+    from .c01 import fetch_width_rule
+    fetch_width_rule(ctx, R6, X)
+
     # -------------------------------------------------------------- D4 truncation / streams / progress
     R4 = report.rule('C10.D4', 'truncated input is reported as absent; reads are bounds-checked; loops make progress', floor=12)
     if not tries or 'IOError' not in caught:
